@@ -4,6 +4,7 @@ import (
 	"fmt"
 	"math/big"
 	"sort"
+	"strings"
 	"time"
 
 	sdk "github.com/cosmos/cosmos-sdk/types"
@@ -285,7 +286,7 @@ func opTake(g *G) bool {
 		retire = false
 	}
 	g.bump(fmt.Sprintf("take:retire_on_take=%v/auto-retire-disabled=%v", retire, b.DisableAutoRetire))
-	g.Do(g.App.MsgBasketTake(us[i], b.Denom, amt.String(), retire, g.jur(), "take"), "take "+kind)
+	g.Do(g.App.MsgBasketTake(us[i], b.Denom, g.intSpelling(amt), retire, g.jur(), "take"), "take "+kind)
 	return true
 }
 
@@ -885,4 +886,45 @@ func opBuyMissing(g *G) bool {
 		}
 	}
 	return false
+}
+
+// intSpelling renders a non-negative integer in one of the spellings sdk.NewIntFromString accepts (math/big base 0):
+// mostly plain decimal, sometimes hexadecimal / octal / binary with prefix, a leading plus or '_' separators, and in the
+// malformed stream a spelling that must be rejected.
+func (g *G) intSpelling(v *big.Int) string {
+	plain := v.String()
+	if !g.R.Chance(1, 6) {
+		return plain
+	}
+	sep := func(s string) string { // '_' between two digits
+		if len(s) < 2 {
+			return s
+		}
+		i := 1 + g.R.Intn(len(s)-1)
+		return s[:i] + "_" + s[i:]
+	}
+	var out string
+	switch g.R.Intn(8) {
+	case 0:
+		out = "0x" + v.Text(16)
+	case 1:
+		out = "0" + v.Text(8)
+	case 2:
+		out = "0o" + v.Text(8)
+	case 3:
+		out = "0b" + v.Text(2)
+	case 4:
+		out = "+" + plain
+	case 5:
+		out = sep(plain)
+	case 6:
+		out = "0X" + sep(strings.ToUpper(v.Text(16)))
+	default:
+		out = "0_" + v.Text(8)
+	}
+	if g.bad() && g.R.Chance(1, 3) {
+		out = []string{"0" + plain + "8", plain + "_", "_" + plain, "0x", plain + "__1", "0b" + plain + "2", "0" + plain + ".0"}[g.R.Intn(7)]
+	}
+	g.bump("take:spelling-variant")
+	return out
 }
